@@ -27,14 +27,14 @@ def run(ctx):
         tc.replay_file(ctx, binp, runner)
         return
     ncorp = tc.corpus_replay(ctx, binp, runner, "C03")
-    n = 5000 if ctx.quick else 150000
-    stats = tc.correspondence(ctx, binp, runner, ["hist", ctx.seed, n, "c03"], "H",
-                              "state history (profile c03)")
+    n = 5000 if ctx.quick else 100000
+    stats = tc.correspondence_chunked(ctx, binp, runner, ["hist", "c03"], ctx.seed, n, "H",
+                                      "state history (profile c03)")
     ctx.notes["history_distribution_c03"] = stats
     # a slice of lock-heavy histories as well: the ordered-map view must hold under locks too
-    m = 1000 if ctx.quick else 30000
-    stats2 = tc.correspondence(ctx, binp, runner, ["hist", ctx.seed + 7919, m, "c15"], "H",
-                               "state history (profile c15)")
+    m = 1000 if ctx.quick else 20000
+    stats2 = tc.correspondence_chunked(ctx, binp, runner, ["hist", "c15"], ctx.seed + 7919, m, "H",
+                                       "state history (profile c15)")
     ctx.notes["history_distribution_c15"] = stats2
     rc, out = c.run_bin(binp, ["directed"], timeout=300)
     dd, _, _ = tc.parse_lines(out)
